@@ -390,7 +390,7 @@ package vuego
 //@   assert C10+C14.attrs.private.eval: fresh($arg1) && $arg1 != nil at "call evalAttributes"
 //@   decreases maxEvalDepth + 10 - depth, 3
 //@   ensures C04+C05.balance: BALANCED(ctx)
-//@   assert C16.marked: hasAttrUpTo(node.Attr, "v-once", len(node.Attr)) && !hasAttrUpTo(node.Attr, "v-for", len(node.Attr)) && !hasAttrUpTo(node.Attr, "v-if", len(node.Attr)) ==> ctx.seen[getAttrFrom(node.Attr, "v-once-id", 0)] at "helpers.HasAttr(node, \"v-pre\")"
+//@   assert C16.marked: hasAttrUpTo(node.Attr, "v-once", len(node.Attr)) && !hasAttrUpTo(node.Attr, "v-for", len(node.Attr)) && !hasAttrUpTo(node.Attr, "v-if", len(node.Attr)) && !hasAttrUpTo(node.Attr, "v-else", len(node.Attr)) && !hasAttrUpTo(node.Attr, "v-else-if", len(node.Attr)) ==> ctx.seen[getAttrFrom(node.Attr, "v-once-id", 0)] at "helpers.HasAttr(node, \"v-pre\")"
 //@   assert C03+C06.slot.chain.first: !hasAttrUpTo(node.Attr, "v-if", len(node.Attr)) && !hasAttrUpTo(node.Attr, "v-else-if", len(node.Attr)) && !hasAttrUpTo(node.Attr, "v-else", len(node.Attr)) at "call evalSlot"
 //@   loop 0 invariant C03+C04.loop.bounds: 0 <= i && i <= len(nodes)
 //@   loop 0 invariant C04+C05.balance.loop: BALANCED(ctx)
